@@ -5,6 +5,7 @@ import Proofs.C19Decode
 import Proofs.C19Gen
 import Proofs.C19Order
 import Proofs.C19Conc
+import Model.UuidErr
 /-!
 # C19 — UUIDs parse, print and carry time faithfully; generated time-UUIDs are unique (property theorems)
 
@@ -742,6 +743,60 @@ theorem C19_genrun_answer_distinct (hw : List UInt8) (c : Nat) (sec : Int) (nsec
 example : (genRun [1, 2, 3, 4, 5, 6] 0xffffffff [(1700000000, 5), (1700000000, 5), (1700000000, 5)]).Pairwise (· ≠ ·) :=
   C19_timeuuid_unique_if_clock_advances _ _ _ (by intro i j hi hj hij _; simp at hj; omega)
 example : steppedClock 1700000000 999999950 2 100 5 = (1700000001, 150) := by decide
+
+/-! ### error values (`Model/UuidErr.lean`) -/
+
+/-- The error values are consistent with the decoders, for every input and destination: an entry point returns
+    an error EXACTLY when the modelled decode fails (so no failure is silent and no success carries an error), and
+    a rejected text is named in the error — `invalid UUID "<the input, quoted>"` — for every ASCII input. -/
+theorem C19_error_iff_failure (dst bs : List UInt8) (d : Dst) (tu : Bool) (prev : Int × Nat) :
+    ((textErr bs).isNone = (unmarshalText dst bs).1) ∧
+    ((jsonErr bs).isNone = (unmarshalJSON dst bs).1) ∧
+    ((marshalErr tu d).isNone = (marshalCQL d).isSome) ∧
+    ((unmarshalErr tu bs d).isNone = (unmarshalCQL bs d).1) ∧
+    ((unmarshalTimeErr tu bs).isNone = (unmarshalCQLTime tu bs prev).1) ∧
+    (isASCII bs = true → (unmarshalText dst bs).1 = false →
+      textErr bs = some ⟨.plain, some (lit "invalid UUID " ++ quoteASCII bs)⟩) := by
+  refine ⟨?_, ?_, ?_, ?_, ?_, ?_⟩
+  · simp only [textErr, unmarshalText]
+    cases h : parseUUID (runes bs) <;> rfl
+  · simp only [jsonErr, unmarshalJSON, textErr]
+    split
+    · rfl
+    · cases h : parseUUID (runes (trimQuotes bs)) <;> rfl
+  · cases d with
+    | uuid u => rfl
+    | arr a => rfl
+    | bytes b =>
+      cases b with
+      | none => simp [marshalErr, marshalCQL]
+      | some b => by_cases h : b.length = 16 <;> simp [marshalErr, marshalCQL, h]
+    | str t =>
+      simp only [marshalErr, marshalCQL, textErr]
+      cases h : parseUUID (runes t) <;> rfl
+  · simp only [unmarshalErr, unmarshalCQL]
+    split
+    · cases d <;> rfl
+    · split
+      · rfl
+      · cases d <;> rfl
+  · simp only [unmarshalTimeErr, unmarshalCQLTime, time]
+    cases tu with
+    | false => simp; split <;> rfl
+    | true =>
+      simp only [if_true, Bool.not_true, Bool.false_eq_true, if_false]
+      split
+      · rfl
+      · split <;> rfl
+  · intro ha hf
+    simp only [textErr, unmarshalText] at hf ⊢
+    split at hf
+    · simp at hf
+    · rename_i h; simp [h, parseErr, ha]
+
+/-- non-vacuity: what `%q` does to a quote, a backslash, a tab, a NUL and DEL inside a rejected text -/
+example : textErr [34, 92, 9, 0, 127, 103] =
+    some ⟨.plain, some (lit "invalid UUID \"\\\"\\\\\\t\\x00\\x7fg\"")⟩ := by decide
 
 /-! ### concurrent callers as a small-step machine (`Model/UuidConc.lean`): ALL interleavings
 
